@@ -90,6 +90,12 @@ CLAIMED = {
          "tree up to depth 2, and validates the ranges asn1c prints (-E -F -print-constraints) against Eff / OerEff; the layout the generated codecs "
          "actually use is validated byte-exactly against the reference encoders on types built from expression trees (module VC).",
          "TLA+ constraint semantics + TLC-enumerated expression trees + validation of printed ranges and codec octets"),
+ "C13": ("model_checking", "7 C13",
+         "Codec.tla: an encoding adopted from another build of the same module is THE encoding of that syntax for the session value (canonical "
+         "encoders are functions of the abstract value and take no options), so the option build's Encode must reproduce it, its decoder must "
+         "return the session value for it, and the structures must compare equal. TLC enumerates (type, value, syntax); the glue builds the "
+         "module under each option set from the working tree; the descriptor-walking driver is independent of the C representation.",
+         "TLA+ canonical-encoder rule across builds + TLC-enumerated values + trace validation per option set"),
 }
 
 checks = []
